@@ -381,3 +381,35 @@ def ret_okness(r):
     if r[0] == "from_residual":
         return False
     return None
+
+
+_OKNESS_CACHE = {}
+
+
+def okness(fb, r, depth=0):
+    """ret_okness that also resolves calls to workspace functions whose every return is Err/None
+    (e.g. error-wrapping helpers) or Ok/Some."""
+    v = ret_okness(r)
+    if v is not None or fb is None or depth > 3:
+        return v
+    while r[0] in ("ref", "deref"):
+        r = r[1]
+    if r[0] == "phi":
+        vs = {okness(fb, x, depth + 1) for x in r[2]}
+        return vs.pop() if len(vs) == 1 else None
+    if r[0] == "call":
+        from .terms import CALLINFO, Sym
+        info = CALLINFO[r[4]] if r[4] < len(CALLINFO) else {}
+        if info.get("indirect"):
+            return None
+        k = (info.get("res") or info).get("key")
+        if k in _OKNESS_CACHE:
+            return _OKNESS_CACHE[k]
+        f = fb.fns.get(k)
+        res = None
+        if f is not None and len(f.blocks) <= 12:
+            ret = Sym(f, fb).local(0)
+            res = okness(fb, ret, depth + 1)
+        _OKNESS_CACHE[k] = res
+        return res
+    return None
